@@ -6,7 +6,7 @@ pub fn run(ctx: &Ctx) {
     ctx.set_rule("proptest-generated single instructions (MOV loads/stores of both widths, read-modify-write ADD/SUB/XOR/OR/NOT, XCHG, LEA) over all 5 addressing shapes x {no override, ES, CS, SS, DS} x {BX,BP} x {SI,DI} x displacement (none, 0, +-1, 7FFFh, -8000h, 8000h..FFFFh, random) and data-label operands with run-time DS != 0; registers/segments are constructed so that offset sums land on FFFEh/FFFFh/0/1 and physical addresses on FFFFEh..100001h; memory holds a position dependent pattern and all 1 MiB is compared, so a wrong cell is a wrong value. Non-trivial = memory or label operand (offset wrap, physical wrap, negative displacement, BP default segment, override, word straddling 2^20 are counted as classes).");
     ctx.assume("reference EA: 16-bit wrapping sum of base/index/displacement, SS default iff BP is the base, override replaces it, physical = (seg*16+off) mod 2^20, word = bytes at phys and phys+1 mod 2^20");
     ctx.set_exhaustive(false);
-    let n = ctx.tier.pick(64_000u32, 3_000_000u32);
+    let n = ctx.tier.pick(400_000u32, 6_000_000u32);
     run_forms_n(ctx, FormSet::Addressing, n, "Addressing");
     for c in [
         "shape/direct", "shape/indirect", "shape/based", "shape/indexed", "shape/based-indexed",
